@@ -138,6 +138,7 @@ type World struct {
 	PropOverride    string
 	armedC15        bool
 	armedC08        bool
+	ibcSimulated    bool // the reference node has simulated a transaction holding IBC messages
 	IsShadow        bool // this World wraps the chain started from an export (followShadow)
 	armedShadow     bool
 	shadow          *shadowChain
@@ -264,6 +265,20 @@ func (w *World) newReplica(i int, cfg NodeCfg) *Node {
 	n.Fault = NewFaultDB(inner)
 	n.DB = n.Fault
 	return n
+}
+
+// txIsIBC: the transaction holds a message of the IBC core modules.
+func (w *World) txIsIBC(bz []byte) bool {
+	dec, err := w.Ref.App.TxConfig().TxDecoder()(bz)
+	if err != nil {
+		return false
+	}
+	for _, m := range dec.GetMsgs() {
+		if strings.HasPrefix(sdk.MsgTypeURL(m), "/ibc.core.") {
+			return true
+		}
+	}
+	return false
 }
 
 // panicString extracts a stable text from a recovered value.
@@ -884,7 +899,13 @@ func (w *World) execOnReplica(n *Node, rec *BlockRec, crash *NodeEvent, ev *Node
 		r := a.DeliverTx(abci.RequestDeliverTx{Tx: bz})
 		d := digestOf(r)
 		if d != rec.Res[i] {
-			w.Violate("C01", "C01/tx-result-differs", "node %d height %d tx %d: %+v vs reference %+v", n.Idx, rec.Height, i, d, rec.Res[i])
+			cl := "C01/tx-result-differs"
+			if w.ibcSimulated && w.txIsIBC(bz) {
+				// its own class: an IBC handshake message, on a reference node that was asked to simulate
+				// an IBC handshake transaction earlier (x/capability keeps capabilities in process memory)
+				cl += "/ibc-message-after-simulated-ibc-message"
+			}
+			w.Violate("C01", cl, "node %d height %d tx %d: %+v vs reference %+v", n.Idx, rec.Height, i, d, rec.Res[i])
 		}
 	}
 	if crash != nil && crash.At == "deliver" {
